@@ -18,6 +18,7 @@ import (
 	"seata.apache.org/seata-go/pkg/remoting/getty"
 	"seata.apache.org/seata-go/pkg/rm/tcc"
 	"seata.apache.org/seata-go/pkg/tm"
+	serrors "seata.apache.org/seata-go/pkg/util/errors"
 
 	"verifh/hutil"
 )
@@ -46,7 +47,7 @@ type Event struct {
 var (
 	mu        sync.Mutex
 	events    []Event
-	regMode   string // ok | failcode | error
+	regMode   string // ok | failcode | failcode-errcode | error | nil-reply | wrong-type | wrong-type-failed | pointer-reply
 	nextBID   int64
 	failUser  bool
 	userBool  bool
@@ -143,8 +144,24 @@ func setup(repo string) error {
 				case "failcode":
 					return message.BranchRegisterResponse{AbstractTransactionResponse: message.AbstractTransactionResponse{
 						AbstractResultMessage: message.AbstractResultMessage{ResultCode: message.ResultCodeFailed, Msg: "refused"}}}, nil
+				case "failcode-errcode":
+					return message.BranchRegisterResponse{AbstractTransactionResponse: message.AbstractTransactionResponse{
+						AbstractResultMessage: message.AbstractResultMessage{ResultCode: message.ResultCodeFailed, Msg: "refused"},
+						TransactionErrorCode:  serrors.TransactionErrorCodeGlobalTransactionNotExist}}, nil
 				case "error":
 					return message.BranchRegisterResponse{}, errors.New("tc unreachable")
+				// malformed replies: the call returns without an error, but not with a BranchRegisterResponse value
+				case "nil-reply":
+					return nil, nil
+				case "wrong-type":
+					return message.BranchReportResponse{AbstractTransactionResponse: message.AbstractTransactionResponse{
+						AbstractResultMessage: message.AbstractResultMessage{ResultCode: message.ResultCodeSuccess}}}, nil
+				case "wrong-type-failed":
+					return message.GlobalBeginResponse{AbstractTransactionResponse: message.AbstractTransactionResponse{
+						AbstractResultMessage: message.AbstractResultMessage{ResultCode: message.ResultCodeFailed, Msg: "refused"}}}, nil
+				case "pointer-reply":
+					return &message.BranchRegisterResponse{AbstractTransactionResponse: message.AbstractTransactionResponse{
+						AbstractResultMessage: message.AbstractResultMessage{ResultCode: message.ResultCodeSuccess}}, BranchId: bid}, nil
 				}
 				return message.BranchRegisterResponse{AbstractTransactionResponse: message.AbstractTransactionResponse{
 					AbstractResultMessage: message.AbstractResultMessage{ResultCode: message.ResultCodeSuccess}}, BranchId: bid}, nil
@@ -283,10 +300,10 @@ func oraclePrepare(c *PrepareCase) string {
 	}
 	if c.RegMode != "ok" {
 		if ntry != 0 {
-			return "try ran although branch registration failed"
+			return "try ran although no registration was accepted (coordinator reply: " + c.RegMode + ")"
 		}
 		if c.Outcome != hutil.OutErr {
-			return "prepare reported success although branch registration failed"
+			return "prepare reported success although no registration was accepted (coordinator reply: " + c.RegMode + ")"
 		}
 		return ""
 	}
